@@ -114,6 +114,7 @@ func c17Cases() []retCase {
 		{"xml/filtered-quote-in-literal", sch("xml", "", `/root/rec[v="o'b"]`), "<root>", "</root>", alt("<rec><v>o'b</v></rec>", "<rec><v>2</v></rec>"), 1},
 		{"json/filtered-padded-xpath", sch("json", "", " /recs/*[v='1'] "), `{"recs": [`, `{"v": "last"}]}`, alt(`{"v": "1"},`, `{"v": "2"}, `), 1},
 		{"xml/nested-groups", sch("xml", "", "/root/g/rec"), "<root><g>", "</g></root>", func(int) string { return "<rec><v>1</v></rec>" }, 1},
+		{"json/distinct-property-names", sch("json", "", "/recs/*"), `{"recs": {`, `"last": {"v": "z"}}}`, func(i int) string { return fmt.Sprintf(`"order-%d-%x": {"v": "1", "k%d": 1},`, i, i*7919, i) }, 1},
 		{"json/array", sch("json", "", "/recs/*"), `{"hdr": "h", "recs": [`, `{"v": "last"}]}`, func(int) string { return `{"v": "1", "w": [1, 2]},` + "\n" }, 1},
 		{"json/filtered", sch("json", "", "/recs/*[v='1']"), `{"recs": [`, `{"v": "last"}]}`, alt(`{"v": "1"},`, `{"v": "2"}, `), 1},
 		{"csv/rows", sch("csv", `{"delimiter": ",", "data_row_index": 1, "columns": [{"name": "v"}, {"name": "w"}]}`, ""), "", "", func(int) string { return "1,x\n\n" }, 1},
